@@ -459,6 +459,31 @@ func TestC08Regress(t *testing.T) { hx.Regress(t, hC08, "TestC08", propC08) }
 
 func TestC08(t *testing.T) { hx.Check(t, hC08, "TestC08", genC08, propC08) }
 
+// TestC08StatusValues: GetStatus with every field of the reply, one at a time, at 0..300 and at the powers of two
+// and their neighbours: the caller gets exactly what the kernel sent.
+func TestC08StatusValues(t *testing.T) {
+	var values []uint32
+	for v := uint32(0); v <= 300; v++ {
+		values = append(values, v)
+	}
+	for b := uint(9); b < 32; b++ {
+		values = append(values, 1<<b-1, 1<<b, 1<<b+1)
+	}
+	values = append(values, 0xffffffff)
+	for field := 0; field < 11; field++ {
+		for _, v := range values {
+			st := make([]byte, 44)
+			ne.PutUint32(st[4*field:], v)
+			c := C08Case{StartSeq: 5, Ops: []Op08{{Op: "GetStatus", Status: st, DelErrAt: -1}}}
+			hC08.Eval()
+			if err := hx.Guard(propC08, c); err != nil {
+				hC08.Fail(t, "TestC08", c, "status field %d = %#x: %v", field, v, err)
+			}
+		}
+	}
+	hC08.Class("status-value-sweep")
+}
+
 // TestC08Errnos: every command x every errno 1..133 as the kernel's verdict (no noise).
 func TestC08Errnos(t *testing.T) {
 	n := 0
